@@ -26,11 +26,18 @@ var solvers = map[string]solverSpec{
 
 // queryText builds the SMT-LIB text for one part of an obligation.
 func (o *Obligation) queryText(part int, wantModel bool, extra []string) string {
+	return o.queryTextOpt(part, wantModel, extra, false)
+}
+
+func (o *Obligation) queryTextOpt(part int, wantModel bool, extra []string, lite bool) string {
 	fx := o.fx
 	p := o.Parts[part]
 	var b strings.Builder
 	b.WriteString("(set-option :produce-models true)\n(set-logic ALL)\n")
 	for _, l := range prelude {
+		if lite && preludeIsHard(l) {
+			continue
+		}
 		b.WriteString(l + "\n")
 	}
 	b.WriteString("(define-fun nilslice () Slice (mk_slice 0 0 0 0))\n")
